@@ -1656,5 +1656,86 @@ theorem c12_logging_drop_error_witness :
       clientStreamLogged .body (.bodyCut 5 false 0) { id := 1, headLen := 47, framing := .chunked, bodyLen := 10 } =
         .prefixThenClose 1 .chunked 0 false .fin := by decide
 
+/-! ### §11 the basic-auth parser runs on a goroutine nobody recovers: it is defined on every input -/
+
+/-- `parseBasicAuth` as Go executes it never reaches an index / slice expression out of range, and what it
+    returns is `Req.parseBasicAuth` (the function C04's theorems are about): for EVERY byte string -/
+theorem c12_parse_basic_auth_go_eq (auth : Bytes) :
+    parseBasicAuthGo auth = .ret (Req.parseBasicAuth auth) := by
+  unfold parseBasicAuthGo Req.parseBasicAuth
+  by_cases h : auth.length < 6
+  · simp [h]
+  · have h6 : 6 ≤ auth.length := by omega
+    simp only [h, if_false, goSliceTo, goSliceFrom, h6, if_true, decide_false, Bool.false_or]
+    by_cases he : eqFold (auth.take 6) (bs "Basic ") = true
+    · simp only [he, Bool.not_true, Bool.false_eq_true, if_false, credsOf]
+      cases Req.b64Decode (auth.drop 6) <;> rfl
+    · simp [he]
+
+/-- total: on every input the result is `none` or a pair — never a panic -/
+theorem c12_parse_basic_auth_total (auth : Bytes) :
+    parseBasicAuthGo auth = .ret none ∨ ∃ u p, parseBasicAuthGo auth = .ret (some (u, p)) := by
+  rw [c12_parse_basic_auth_go_eq]
+  cases Req.parseBasicAuth auth with
+  | none => exact Or.inl rfl
+  | some up => exact Or.inr ⟨up.1, up.2, rfl⟩
+
+example : parseBasicAuthGo (bs "Basic dXNlcjpwYTpzcw==") = .ret (some (bs "user", bs "pa:ss")) := by
+  with_unfolding_all decide
+example : parseBasicAuthGo (bs "Basic") = .ret none ∧ parseBasicAuthGo [] = .ret none ∧
+    parseBasicAuthGo (bs "Basic ") = .ret none ∧ parseBasicAuthGo (bs "Basic  dXNlcjpwYTpzcw==") = .ret none := by
+  with_unfolding_all decide
+
+/-- the basic-auth control decides every field value, and decides it as C04's `authenticated` says -/
+theorem c12_basic_auth_decides (user pass v : Bytes) :
+    authenticatedGo user pass v = .ret (C04.authenticated user pass v) := by
+  unfold authenticatedGo C04.authenticated
+  rw [c12_parse_basic_auth_go_eq]
+  by_cases hv : v.isEmpty = true
+  · simp only [hv, if_true, Bool.not_true, Bool.false_and]
+    cases Req.parseBasicAuth v with
+    | none => rfl
+    | some up => rfl
+  · simp only [hv, Bool.false_eq_true, if_false]
+    cases Req.parseBasicAuth v with
+    | none => rfl
+    | some up => obtain ⟨u, p⟩ := up; simp
+
+theorem c12_basic_auth_never_panics (user pass v : Bytes) : authenticatedGo user pass v ≠ .panic := by
+  rw [c12_basic_auth_decides]; intro h; cases h
+
+example : authenticatedGo (bs "user") (bs "pa:ss") (bs "bAsIc dXNlcjpwYTpzcw==") = .ret true := by
+  with_unfolding_all decide
+
+/-- the `strings.Fields` way of writing the parser is partial, and exactly where: no field at all (an empty
+    value, or one made of white space the header reader does not trim), or the scheme alone -/
+theorem c12_fields_variant_panics_iff (auth : Bytes) :
+    parseBasicAuthFields auth = .panic ↔
+      (authFields auth = [] ∨ ∃ x, authFields auth = [x] ∧ eqFold x (bs "Basic") = true) := by
+  unfold parseBasicAuthFields
+  generalize authFields auth = f
+  match f with
+  | [] => simp [goIndex]
+  | [x] =>
+    by_cases he : eqFold x (bs "Basic") = true <;> simp [goIndex, he]
+  | [x, y] =>
+    by_cases he : eqFold x (bs "Basic") = true <;> simp [goIndex, he]
+  | x :: y :: z :: rest => simp
+
+/-- counter-model (kernel-checked): `Proxy-Authorization: Basic` and a value that is one U+00A0 make the
+    `strings.Fields` variant index out of range where the code as it is answers `none`; the variant also lets in
+    `Basic`, two spaces, credentials — which the code as it is rejects -/
+theorem c12_fields_variant_witness :
+    parseBasicAuthFields (bs "Basic") = .panic ∧ parseBasicAuthGo (bs "Basic") = .ret none ∧
+    parseBasicAuthFields [194, 160] = .panic ∧ parseBasicAuthGo [194, 160] = .ret none ∧
+    parseBasicAuthFields [11] = .panic ∧ parseBasicAuthFields [] = .panic := by
+  refine ⟨?_, ?_, ?_, ?_, ?_, ?_⟩ <;> with_unfolding_all decide
+
+/-- the variant also changes who is let in: `Basic`, two spaces, credentials -/
+theorem c12_fields_variant_lets_in_witness :
+    parseBasicAuthFields (bs "Basic  dXNlcjpwYTpzcw==") = .ret (some (bs "user", bs "pa:ss")) ∧
+    parseBasicAuthGo (bs "Basic  dXNlcjpwYTpzcw==") = .ret none := by
+  refine ⟨?_, ?_⟩ <;> with_unfolding_all decide
+
 end C12
 end FwdVerif
